@@ -100,6 +100,9 @@ pub fn finish_stages(mut out: SearchOut, trace: Vec<(usize, usize, u32)>) -> Sea
 pub fn show_search(spec: &SearchSpec, o: &SearchOut) -> String {
     if spec.mode.contains('+') {
         return o.stages.iter().map(|(m, tg, so)| {
+            if stage_mutation(m).is_some() {
+                return "ok".to_string();
+            }
             let mut sp = spec.clone();
             sp.mode = m.clone();
             sp.target = *tg;
@@ -191,8 +194,18 @@ macro_rules! fill_path {
     }};
 }
 
+/// a graph mutation between two stages of a reused builder: `c.U.V.E` connect, `d.U.V` disconnect, `x.U` isolate
+pub fn stage_mutation(m: &str) -> Option<(char, usize, usize, u32)> {
+    let t: Vec<&str> = m.split('.').collect();
+    match (t[0], t.len()) {
+        ("c", 4) => Some(('c', t[1].parse().ok()?, t[2].parse().ok()?, t[3].parse().ok()?)),
+        ("d", 3) => Some(('d', t[1].parse().ok()?, t[2].parse().ok()?, 0)),
+        ("x", 2) => Some(('x', t[1].parse().ok()?, 0, 0)),
+        _ => None,
+    }
+}
 macro_rules! run_search_modes {
-    ($spec:expr, $out:expr, $trace:expr) => {
+    ($spec:expr, $out:expr, $trace:expr, $st:expr) => {
         macro_rules! run {
             ($bb:ident) => {{
                 // every stage runs on the SAME builder object (a single stage is the ordinary request).
@@ -204,6 +217,16 @@ macro_rules! run_search_modes {
                     if let Some(k) = retarget {
                         $bb = $bb.target(k);
                         cur_target = Some(*k);
+                    }
+                    if let Some((op, u, v, e)) = stage_mutation(m) {
+                        // the graph changes between two calls on the same builder
+                        match op {
+                            'c' => $st.node(u).connect($st.node(v), e),
+                            'd' => { let _ = $st.node(u).disconnect(&v); }
+                            _ => $st.node(u).isolate(),
+                        }
+                        $out.stages.push((m.clone(), cur_target, SearchOut::empty()));
+                        continue;
                     }
                     let t0 = $trace.borrow().len();
                     let mut so = SearchOut::empty();
@@ -275,7 +298,7 @@ macro_rules! kind_search {
             let root = st.node(spec.root).clone();
             let tgt = spec.target;
             {
-                run_search_modes!(spec, out, trace);
+                run_search_modes!(spec, out, trace, st);
                 match spec.kind.as_str() {
                     "bfs" => {
                         let b = root.bfs();
@@ -325,7 +348,7 @@ macro_rules! kind_search {
             let root = st.node(spec.root).clone();
             let tgt = spec.target;
             {
-                run_search_modes!(spec, out, trace);
+                run_search_modes!(spec, out, trace, st);
                 match spec.kind.as_str() {
                     "bfs" => {
                         let b = root.bfs();
@@ -672,7 +695,10 @@ macro_rules! ext_mod {
                             let vals: Vec<(usize, i64)> = st.nodes.iter().map(|n| (*n.key(), *n.value())).collect();
                             if spec.mode.contains('+') {
                                 // builder reuse: the statement is evaluated on every stage
-                                for (m, tg, so) in &out.stages {
+                                // stages before a graph mutation saw another graph: the statement is evaluated (against the
+                                // lists as they are now) on the stages after the last mutation
+                                let first = out.stages.iter().rposition(|(m, _, _)| stage_mutation(m).is_some()).map_or(0, |i| i + 1);
+                                for (m, tg, so) in &out.stages[first..] {
                                     let mut sp = spec.clone();
                                     sp.mode = m.clone();
                                     sp.target = *tg;
@@ -690,7 +716,7 @@ macro_rules! ext_mod {
                         if spec.script.is_some() {
                             shown.push_str(&format!(" res=[{}]", sres.into_inner().join(",")));
                         }
-                        if DIRECTED && !ctx.quiet && ctx.oracles.iter().any(|o| o == "c08") && !spec.dflt {
+                        if DIRECTED && !ctx.quiet && ctx.oracles.iter().any(|o| o == "c08") && !spec.dflt && !spec.mode.split('+').any(|m| stage_mutation(m).is_some()) {
                             // metamorphic: transpose() on G == the same search without it on the edge-reversed graph
                             let rev = reversed(st, spec.tr);
                             let mut spec2 = spec.clone();
